@@ -13,7 +13,10 @@ How a run works
      vek sources, so edits in /repo are always rebuilt; no verdict is cached anywhere).
   3. one `cargo kani -j N --output-format terse --exact --harness ...` invocation decides the selected
      harnesses in parallel (CBMC + cadical), with a per-harness timeout; a watchdog kills a cbmc that
-     outgrows the memory budget (=> that harness is undecided).
+     outgrows the memory budget (=> that harness is undecided). Kani's per-assertion reachability
+     checks are off (`--no-assertion-reach-checks`: they make CBMC print one full trace per assertion,
+     ~0.5 GB of JSON and 25 s for a 100-assertion harness); vacuity is guarded instead by the explicit
+     `kani::cover!` witnesses every harness carries, all of which must be SATISFIED.
   4. per harness verdict:
        passed     VERIFICATION:- SUCCESSFUL, every cover property SATISFIED, and (should_panic harnesses)
                   every failed check matches the harness's `panics=` regex
@@ -223,7 +226,7 @@ class Watchdog(threading.Thread):
 # ------------------------------------------------------------------------------------------------
 def _run_kani(crate_dir, target_dir, harnesses, timeout_s, jobs, logfile, log, extra=()):
     cmd = ["cargo", "kani", "--target-dir", target_dir, "--output-format", "terse", "-Z", "unstable-options",
-           "--harness-timeout", "%ds" % timeout_s, "--exact"]
+           "--harness-timeout", "%ds" % timeout_s, "--exact", "--no-assertion-reach-checks"]
     if jobs > 1:
         cmd += ["-j", str(jobs)]
     cmd += list(extra)
